@@ -4,11 +4,20 @@
 # answer that the property theorems say must come out (property oracle on the real code).
 OPS = {
     "numenc": "corr", "numdec": "corr", "enc": "corr", "encinto": "corr", "dec": "corr",
-    "encspec": "oracle", "rtdec": "oracle", "rtenc": "oracle", "numlaws": "oracle", "cmplaws": "oracle", "containslaws": "oracle", "keyorder": "oracle", "tostrcheck": "oracle", "jpexpect": "oracle", "kpexpect": "oracle", "jproundtrip": "oracle", "kproundtrip": "oracle",
+    "encspec": "oracle", "rtdec": "oracle", "rtenc": "oracle", "numlaws": "oracle", "cmplaws": "oracle", "containslaws": "oracle", "keyorder": "oracle", 
 }
 
 
+# oracle ops whose expected answer is a constant: the request carries the intended result, or the
+# law is evaluated on the real code alone; anything but these answers is an oracle failure
+CONST_OK = {"numlaws", "cmplaws", "containslaws", "keyorder", "tostrcheck", "jpexpect", "kpexpect", "jexpect",
+            "jproundtrip", "kproundtrip", "modes"}
+OK_ANSWERS = ("ok", "not-accepted", "not-applicable", "skip", "bad-path")
+
+
 def kind_of(op):
+    if op in CONST_OK:
+        return "oracle"
     if op.startswith("spec:"):
         return "oracle"
     return OPS.get(op, "corr")
@@ -42,27 +51,75 @@ PROPS = {
     },
     "C05": {
         "panic_is_violation": True,
-        "proved": "refinement theorems (unbounded, any nesting): array_length and get_by_index on the README layout of a good document return the encoding of the tree answer, for every index; returned sub-values are canonical documents. Backbone lemmas proved for all walkers: iterate_array / iterate_object_entries yield exactly the elements' (entry, payload) pairs; get_jentry_by_index lands on the sum of earlier payload lengths.",
-        "missing": "refinement theorems for get_by_name, get_by_keypath, object_keys, object_each, array_values, type_of, as_*/to_*, exists_*_keys, traverse_check_string: these are decided by correspondence (byte-level model vs Rust) plus the spec oracle (tree answer vs Rust) only",
-        "assumptions": ["documents are canonical encodings of good values"],
+        "proved": 'refinement theorems for EVERY accessor on the README layout of any good document (unbounded, any nesting): array_length, get_by_index (all indices), get_by_name (exact first, then first ignore-case match in key order), get_by_keypath (negative indices, i = len, past scalars), object_keys, object_each, array_values, type_of, as_null/bool/number/str, is_array/object, exists_all/any_keys, traverse_check_string (hit iff some string or key satisfies the test); every sub-value handed back is the canonical encoding of a good value',
+        "missing": 'to_bool/to_i64/to_u64/to_f64/to_str (string-sourced casts rest on the modelled str::parse, validated by the strf64/toi64/tou64 ops)',
+        "assumptions": ['documents are canonical encodings of good values (field widths, valid UTF-8, sorted unique keys)'],
     },
     "C06": {
         "panic_is_violation": True,
-        "proved": "both builders (ArrayBuilder/ObjectBuilder build_into with nested builders) append exactly the layout function of their entries for every prior buffer, unconditionally; an array built from raw entries of good values is its canonical encoding; delete_by_index (every i32 index) and concat of two arrays refine the tree functions into any prior buffer",
-        "missing": "refinement theorems for the object editors, delete_by_name, delete_by_keypath, array_insert, object_insert/delete/pick, strip_nulls, build_array/build_object and the non-array concat cases: decided by correspondence + spec oracle only",
+        "proved": 'builder frame/layout theorem (nested builders, unconditional); refinement theorems into ANY prior buffer for concat (all five cases), delete_by_name, delete_by_index (every i32), delete_by_keypath (every key path), array_insert (every i32 position, clamping), object_insert (insert/update and both documented errors, returned before the buffer is touched), object_delete, object_pick, strip_nulls (nulls at every depth), build_array, build_object (keys in any order, repeats: last wins)',
+        "missing": "none of the listed editors is left without a refinement theorem; side conditions are the format's field widths on the RESULT (count < 2^29, embedded payload < 2^28)",
+        "assumptions": ['documents are canonical encodings of good values (field widths, valid UTF-8, sorted unique keys)'],
+    },
+    "C12": {
+        "panic_is_violation": True,
+        "proved": "for the rule set as a tree function: array rule (every right element matched, scalars by equality, containers by containment), invariance under permutation and duplication of the right array, object rule (every member under the same key), bare-scalar rule, scalar equality = compare equality, reflexivity (good documents), transitivity (unconditional for well-formed numbers; the top-level special case composes), fuel independence",
+        "missing": "byte-level refinement Fn.contains (enc a) (enc b) = Spec.contains a b is not proved: correspondence + spec oracle",
         "assumptions": ["documents are canonical encodings of good values"],
     },
     "C13": {
         "panic_is_violation": True,
-        "proved": "list-level laws of the spec functions: distinct keeps first occurrences in order, never repeats, is idempotent; intersection and except are one decision sequence and its complement (partition of the first list); overlap iff intersection non-empty; byte-level array_distinct on an array document refines Spec.distinct and writes a canonical array into any prior buffer",
-        "missing": "byte-level refinement of intersection/except/overlap and the count formula min(count xs, count ys): correspondence + spec oracle only",
-        "assumptions": ["documents are canonical encodings of good values"],
+        "proved": 'list-level laws (first occurrence, no repeats, idempotence, intersection/except partition the first list by one decision sequence, overlap iff intersection non-empty) and byte-level refinement of array_distinct, array_intersection, array_except, array_overlap for array, object and scalar operands, results canonical arrays in any prior buffer',
+        "missing": 'the count formula min(count xs, count ys) is not stated separately (it is implied by the removeFirst-based spec)',
+        "assumptions": ['documents are canonical encodings of good values (field widths, valid UTF-8, sorted unique keys)'],
     },
     "C14": {
         "panic_is_violation": True,
         "proved": "NEGATIONS with concrete witnesses (kernel-evaluated on the byte-level model of convert_to_comparable): the key is not an order embedding (string bytes vs depth markers), not injective (string prefix + control bytes; integers beyond 2^53), and separates -0.0 from 0. These are the known findings D14a/b/c.",
         "missing": "the positive theorem on the restricted domain (string bytes >= 0x20, depth < 32, exactly representable numbers, no -0.0) is not proved yet; outside the three finding classes the property is decided by the keyorder oracle on the real code and by correspondence of the key bytes",
         "assumptions": ["documents are canonical encodings of good values", "nesting below 255 (depth + 1 overflows a u8 beyond that: see C20)"],
+    },
+    "C04": {
+        "panic_is_violation": True,
+        "proved": 'Fn.compareDocs (enc a) (enc b) = cmpJV a b for ANY two good documents (byte walker refinement, unbounded); cmpJV reflexive, antisymmetric, transitive; Equal iff equal as JSON values (numbers by exact value across encodings); different kinds by the documented ranking; arrays element-wise then length',
+        "missing": "the text/JSONB equivalence of compare's arguments is C11",
+        "assumptions": ['documents are canonical encodings of good values'],
+    },
+    "C02": {
+        "panic_is_violation": True,
+        "proved": "for every byte string parse_value's model returns a value or an error: never a panic (two-pass string scanner, data[0] after \\u, char::from_u32.unwrap, usize subtractions all shown safe), never out of fuel; u64/i64 integers exact (-0 is Int64(0), i64::MIN); completeness on compact RFC 8259 renderings of arbitrary trees with integer numbers (last duplicate key wins)",
+        "missing": 'float literals: correct rounding is by construction of F64.ofDecimal (validated against fast_float2 by correspondence, not proved against an axiomatic real-number spec); soundness direction (accepted text is in the relaxed language) is decided by correspondence only; whitespace/escape-spelling variants beyond the compact renderer by the jexpect oracle',
+        "assumptions": [],
+    },
+    "C03": {
+        "panic_is_violation": True,
+        "proved": '(proofs in progress) model of to_string/to_pretty_string over the binary layout; strict RFC 8259 parser spec',
+        "missing": 'escape/unescape inverse, document-level strictParse(to_string(enc v)) valEq v, pretty = compact modulo whitespace: decided per case by the tostrcheck oracle (Lean strict parser on the model text, serde_json + parse_value on the real text) until the theorems land',
+        "assumptions": ['finite numbers', 'float formatting (ryu) is external: its output is validated per instance (grammar + correctly rounded value = the bits)'],
+    },
+    "C08": {
+        "panic_is_violation": True,
+        "proved": 'selector model: writers of the item modes only append (frame), index arithmetic exact and in range, arithmetic expressions are an error of the evaluator (no todo!()), scalar root evaluates as a scalar position',
+        "missing": 'refinement of find_positions against the tree-level evalPaths is not proved: decided by correspondence (model vs Rust) and the spec oracle (evalPaths on the decoded tree vs Rust) over paths drawn from the document',
+        "assumptions": ['documents are canonical encodings of good values'],
+    },
+    "C09": {
+        "panic_is_violation": True,
+        "proved": "for every byte string parse_json_path's model (nom 7.1.3 combinators incl. Failure propagation) returns a path or an error: no panic, fuel adequate; print->parse identity for $ followed by member names, wildcards, index lists, ranges and last offsets over the whole i32 range",
+        "missing": 'print->parse for filters/expressions and layout variants: decided by the jpexpect (intended structure shipped with the text) and jproundtrip oracles',
+        "assumptions": [],
+    },
+    "C15": {
+        "panic_is_violation": True,
+        "proved": 'on the selector model: first = all truncated to one item, mixed = array if >= 2 items else all, exists iff all-mode non-empty, offsets delimit items (one per item, last at the end of data), predicate paths give the same boolean in every mode = predicate_match, exists true',
+        "missing": 'array-mode holds exactly the all-mode items: evaluated on the real code by the modes oracle (array_values of the array result = the all-mode items)',
+        "assumptions": [],
+    },
+    "C16": {
+        "panic_is_violation": True,
+        "proved": "for every byte string parse_key_paths' model returns key paths or an error (no panic, fuel adequate); print->parse identity for all key paths whose names need no escapes; the empty list",
+        "missing": 'layout variants: kpexpect oracle',
+        "assumptions": [],
     },
     "C17": {
         "panic_is_violation": True,
